@@ -282,7 +282,24 @@ def r09_d(prog: Program, chk: Check) -> None:
     )
 
 
+def r09_e(prog: Program, chk: Check) -> None:
+    chk.rule("R09.e", "the scope synthesised for a suppressing block keeps the LEAVES_LOOP marker: a break/continue inside `with suppress(...)` is still registered with the loop", floor=1)
+    fn = prog.func("stacked_scopes", "FunctionScope.suppressing_subscope")
+    comps = [c for c in walk_no_nested(fn) if isinstance(c, ast.DictComp) and any("LEAVES_SCOPE" in norm(i) for g in c.generators for i in g.ifs)]
+    if not comps:
+        raise AnchorError("suppressing_subscope: the comprehension that filters LEAVES_SCOPE was not found")
+    t = " ".join(norm(i) for g in comps[0].generators for i in g.ifs)
+    chk.ob(
+        "R09.e",
+        "stacked_scopes::FunctionScope.suppressing_subscope::keeps-LEAVES_LOOP",
+        "LEAVES_LOOP" not in t,
+        prog.site("stacked_scopes", comps[0]),
+        f"the filter `{t}` also drops LEAVES_LOOP: assignments before a break/continue in a suppressing with-block no longer reach the loop exit",
+    )
+
+
 def run(prog: Program, chk: Check) -> None:
+    r09_e(prog, chk)
     r09_a(prog, chk)
     r09_b(prog, chk)
     r09_c(prog, chk)
